@@ -97,6 +97,28 @@ class HistGen:
                 self.live[b].append(self.nrefs)
                 self.nrefs += 1
 
+    def op_insert_carrying(self, b):
+        """a SINGLE insert of an event that carries an id (an event read earlier, changed and handed back; one exported from
+        another store): what that means differs between the backends (C02 leaves it out), but it is an event write like any
+        other for the commit bookkeeping"""
+        e = rand_ev(self.rng, self.grid, self.base)
+        e[0] = ["ref", self.rng.choice(self.live[b])] if self.live[b] and self.rng.random() < 0.7 else ["ref", 10**5 + self.rng.randint(0, 9)]
+        self.ops.append(["insert", b, e])
+
+    def op_bulk_unknown_ids(self, b):
+        """a bulk insert in which some events carry ids the bucket does not know (exported elsewhere), before and between new ones"""
+        evs = []
+        for _ in range(self.rng.randint(2, 5)):
+            e = rand_ev(self.rng, self.grid, self.base)
+            if self.rng.random() < 0.5:
+                e[0] = ["ref", 10**5 + self.rng.randint(0, 9)]
+            evs.append(e)
+        self.ops.append(["bulk", b, evs])
+        for e in evs:
+            if e[0] is None:
+                self.live[b].append(self.nrefs)
+                self.nrefs += 1
+
     def carried(self):
         """the event object passed to replace / replace_last may carry any id of its own (e.g. an event that was
         read back earlier): the addressed id is what counts"""
